@@ -138,6 +138,31 @@ func C03(r *eng.Run) {
 	r.Phase("A1 product", t0, nil)
 
 	t0 = time.Now()
+	nlead := 2
+	if r.Thorough() {
+		nlead = 3
+	}
+	leads := LeadSweep(nlead)
+	sm := SmallShapes()
+	r.Bounds["lead_prefix_digits"] = nlead
+	r.Par(len(leads), func(w *eng.W, i int) {
+		for _, c2 := range sm {
+			for _, g := range gaps {
+				qx, qy, _ := place(g)
+				for s := 0; s < 4; s++ {
+					xb := MkBits(s&1 == 1, leads[i], qx)
+					yb := MkBits(s&2 == 2, c2, qy)
+					for m := 0; m < 6; m += 5 {
+						checkQuoRem(w, xb, yb, m)
+						checkQuoRem(w, yb, xb, m)
+					}
+				}
+			}
+		}
+	})
+	r.Phase("A1b lead sweep", t0, nil)
+
+	t0 = time.Now()
 	small := SmallShapes()
 	huge := []int{100, 500, 1000, 3000, 6111, 6176, 12000, 12287}
 	if r.Thorough() {
